@@ -550,6 +550,8 @@ func soloDigests(r *Run, progs [][]concOp) ([][]uint64, bool) {
 
 func runConcDet(r *Run) {
 	c := r.C
+	stallResolvable.Store(true)
+	defer stallResolvable.Store(false)
 	progs := drawPrograms(r)
 	solo, ok := soloDigests(r, progs)
 	r.Res.Evals++
@@ -783,6 +785,7 @@ func runConcRace(r *Run) {
 		beginWait() // (the stall watchdog looks at goroutines blocked in library code if this lasts)
 		for range set {
 			<-arrived
+			waitEpoch.Add(1) // progress
 		}
 		endWait()
 		for _, i := range set {
